@@ -1046,9 +1046,19 @@ impl<'a> CompactionIterator<'a> {
 
 		// Check if latest version is DELETE at bottom level
 		// If so, we can completely remove this key from the database
+		// ... unless an active snapshot taken before the delete still sees an
+		// older version of the key: that version has to stay, and then the
+		// tombstone above it has to stay as well, otherwise the deleted value
+		// would reappear for every reader that begins after this compaction.
+		let older_visible_to_snapshot = self.accumulated_versions.len() > 1 && {
+			let delete_seq = self.accumulated_versions[0].0.seq_num();
+			let oldest_seq = self.accumulated_versions[self.accumulated_versions.len() - 1].0.seq_num();
+			self.snapshots.iter().any(|&s| s < delete_seq && s >= oldest_seq)
+		};
 		let latest_is_delete_at_bottom = self.is_bottom_level
 			&& !self.accumulated_versions.is_empty()
-			&& self.accumulated_versions[0].0.is_hard_delete_marker();
+			&& self.accumulated_versions[0].0.is_hard_delete_marker()
+			&& !older_visible_to_snapshot;
 
 		// Check if any version is REPLACE
 		// REPLACE semantics: delete all older versions regardless of retention
@@ -1125,11 +1135,12 @@ impl<'a> CompactionIterator<'a> {
 			} else if is_latest && !is_hard_delete && !is_replace {
 				// Latest PUT: never stale (will be output)
 				false
-			} else if is_latest && is_hard_delete && self.is_bottom_level {
+			} else if is_latest && is_hard_delete && latest_is_delete_at_bottom {
 				// Latest DELETE at bottom: stale (won't be output)
 				true
-			} else if is_latest && is_hard_delete && !self.is_bottom_level {
-				// Latest DELETE at non-bottom: not stale (tombstone preserved)
+			} else if is_latest && is_hard_delete {
+				// Latest DELETE at non-bottom, or at the bottom while a snapshot
+				// still needs an older version: not stale (tombstone preserved)
 				false
 			} else if is_latest && is_replace {
 				// Latest REPLACE: not stale (will be output)
